@@ -394,6 +394,16 @@ def run_property(prop, tier, seed, replay, t0):
         for h in scan_trusted(upath, rep):
             trusted.append("%s:%d %s %s" % (u, h["line"], h["name"], h["what"]))
 
+    bounded = []
+    for ex in cfg.get("extra", []):
+        r = sh([os.path.join(VERIF, ex["cmd"][0])] + ex["cmd"][1:], cwd=VERIF)
+        try:
+            out = json.loads(r.stdout.strip().splitlines()[-1])
+        except Exception:
+            out = {"raw": r.stdout[-500:], "err": r.stderr[-500:]}
+        bounded.append({"label": ex["label"], "bound": ex.get("bounded"), "returncode": r.returncode, "result": out})
+        if r.returncode != 0:
+            undecided.append("auxiliary check failed: %s" % ex["label"])
     expected_fns = cfg.get("functions", [])
     present = set(fn_name_of_item(it) for _, it in my_items)
     for fn in expected_fns:
@@ -430,6 +440,7 @@ def run_property(prop, tier, seed, replay, t0):
         "samples": samples,
         "explanation": cfg.get("explanation", ""),
         "cached_units": [u for u in units if results[u].get("cached")],
+        "bounded_stand_ins": bounded,
     }
     ev["coverage"] = cov
     ev["assumptions"] = cfg.get("assumptions", []) + ["every item listed in coverage.trusted_base (mechanical scan of the generated unit)",
